@@ -689,6 +689,105 @@ func kbScenario(t *buf, r *gen.R, pool []pw) {
 	getcb()
 }
 
+// kbLazyCoinbaseScenario: the LevelDB-backed keybase (keys.New) keeps the coinbase key pair in memory
+// (SetCoinbase / GetCoinbase).  That copy must never answer for the database: after Update the old
+// passphrase must be dead for export and sign, after Delete the key must be gone for every passphrase,
+// also when the address is the cached coinbase and no GetCoinbase refreshed the copy in between.
+func kbLazyCoinbaseScenario(t *buf, r *gen.R) {
+	dir, err := os.MkdirTemp(".", "c40-lazycb-")
+	if err != nil {
+		return
+	}
+	defer os.RemoveAll(dir)
+	kb := keys.New("verif-keys", dir)
+	h := &kbHarness{t: t, kb: kb, r: r, known: map[string]string{}, cur: map[string]string{}}
+	k0, k1 := newKey(r, false), newKey(r, false)
+	h.pool = []key{k0, k1}
+	t.Line("newkb", true, "newkb => OK")
+	imp := func(k key, p string) {
+		res := try(func() string {
+			var raw [64]byte
+			copy(raw[:], k.priv.RawBytes())
+			kp, err := kb.ImportPrivateKeyObject(raw, p)
+			if err != nil {
+				return errClass(err)
+			}
+			return "OK " + hex.EncodeToString(kp.GetAddress())
+		})
+		t.Line("import", strings.HasPrefix(res, "OK"), "import %s %s %s => %s", privHex(k.priv), k.addr, hx(p), res)
+	}
+	setcb := func(a string) {
+		res := try(func() string { return errClass(kb.SetCoinbase(addrOf(a))) })
+		t.Line("setcoinbase", res == "OK", "setcoinbase %s => %s", a, res)
+	}
+	getcb := func() {
+		res := try(func() string {
+			kp, err := kb.GetCoinbase()
+			if err != nil {
+				return errClass(err)
+			}
+			return "OK " + hex.EncodeToString(kp.GetAddress())
+		})
+		t.Line("getcoinbase", strings.HasPrefix(res, "OK"), "getcoinbase => %s", res)
+	}
+	sign := func(a, p string) {
+		res := try(func() string {
+			sig, pub, err := kb.Sign(addrOf(a), p, []byte{9})
+			if err != nil {
+				return errClass(err)
+			}
+			return fmt.Sprintf("OK %v %s", pub.VerifyBytes([]byte{9}, sig), hex.EncodeToString(pub.Address()))
+		})
+		t.Line("sign", strings.HasPrefix(res, "OK"), "sign %s %s => %s", a, hx(p), res)
+	}
+	upd := func(a, o, n string) {
+		res := try(func() string { return errClass(kb.Update(addrOf(a), o, n)) })
+		t.Line("update", res == "OK", "update %s %s %s => %s", a, hx(o), hx(n), res)
+	}
+	del := func(a, p string) {
+		res := try(func() string { return errClass(kb.Delete(addrOf(a), p)) })
+		t.Line("delete", res == "OK", "delete %s %s => %s", a, hx(p), res)
+	}
+	get := func(a string) {
+		res := try(func() string {
+			kp, err := kb.Get(addrOf(a))
+			if err != nil {
+				return errClass(err)
+			}
+			return "OK " + hex.EncodeToString(kp.GetAddress())
+		})
+		t.Line("get", strings.HasPrefix(res, "OK"), "get %s => %s", a, res)
+	}
+	imp(k0, "a")
+	imp(k1, "b")
+	setcb(k0.addr) // the in-memory coinbase copy is filled by SetCoinbase ...
+	sign(k0.addr, "a")
+	upd(k0.addr, "a", "c")
+	h.exportObjLine(k0.addr, "a") // the old passphrase is dead
+	sign(k0.addr, "a")
+	h.exportObjLine(k0.addr, "c")
+	sign(k0.addr, "c")
+	del(k0.addr, "a")
+	del(k0.addr, "c")
+	h.exportObjLine(k0.addr, "a") // the key is gone, for the cached and for the current passphrase
+	h.exportObjLine(k0.addr, "c")
+	sign(k0.addr, "a")
+	sign(k0.addr, "c")
+	get(k0.addr)
+	setcb(k1.addr)
+	getcb() // ... or by GetCoinbase
+	upd(k1.addr, "b", "d")
+	h.exportObjLine(k1.addr, "b")
+	sign(k1.addr, "b")
+	h.exportObjLine(k1.addr, "d")
+	del(k1.addr, "d")
+	h.exportObjLine(k1.addr, "b")
+	h.exportObjLine(k1.addr, "d")
+	sign(k1.addr, "d")
+	get(k1.addr)
+	h.listLine()
+}
+
 // kbGuardScenario: one key protected by a NON-EMPTY passphrase; every passphrase-taking operation
 // is tried with every near variant of it (whitespace, case, NFC/NFD, prefix/suffix, doubled, the
 // EMPTY passphrase, trailing NUL); each must be refused AND leave the key in place (Get after
@@ -846,6 +945,8 @@ func main() {
 				kbGuardScenario(b, r, false)
 			} else if i == 4 {
 				kbGuardScenario(b, r, true)
+			} else if i == 5 {
+				kbLazyCoinbaseScenario(b, r)
 			} else if i%3 == 0 {
 				mintkeyCase(b, r, pool)
 			} else {
